@@ -173,6 +173,53 @@ for nserv in (1, 2, 3, 5):
         if bad: break
       if bad: break
     if bad: break
+# a server that was out of rotation comes back: the FIRST call after its dead_timeout is a multi-key one; every key of that batch
+# and every later single-key call must use the same (restored) placement
+if not bad:
+    import types, pymemcache.client.hash as hmod3
+    real_time = hmod3.time
+    clock = [1000.0]
+    hmod3.time = types.SimpleNamespace(time=lambda: clock[0], monotonic=lambda: clock[0], sleep=lambda s: None)
+    down = set()
+    class FlakyClient(FakeClient):
+        def _chk(self):
+            if self.server in down: raise ConnectionRefusedError("down")
+        def set(self, *a, **kw): self._chk(); return FakeClient.set(self, *a, **kw)
+        def get(self, *a, **kw): self._chk(); return FakeClient.get(self, *a, **kw)
+        def set_many(self, *a, **kw): self._chk(); return FakeClient.set_many(self, *a, **kw)
+        def get_many(self, *a, **kw): self._chk(); return FakeClient.get_many(self, *a, **kw)
+    try:
+        for nserv in (2, 3, 5):
+            for first_op in ("set_many", "get_many"):
+                n += 1
+                hc = HashClient([], retry_attempts=0, retry_timeout=1, dead_timeout=5, ignore_exc=True)
+                hc.client_class = FlakyClient
+                for i in range(nserv): hc.add_server(("10.0.1.%d" % i, 11211))
+                keys = ["rk%d" % i for i in range(24)]
+                home = {k: hc.clients[hc.hasher.get_node(k)].server for k in keys}
+                victim = home[keys[0]]
+                down.add(victim)
+                for k in keys: hc.get(k)                       # the victim fails and is taken out of rotation
+                down.discard(victim)
+                clock[0] += 6                                   # dead_timeout elapsed
+                ordered = [k for k in keys if home[k] == victim] + [k for k in keys if home[k] != victim]
+                del log[:]
+                if first_op == "set_many":
+                    hc.set_many({k: "v-" + k for k in ordered})
+                else:
+                    hc.get_many(ordered)
+                    hc.set_many({k: "v-" + k for k in ordered})
+                where = {x[2]: x[0] for x in log if x[1] == first_op}
+                for k in ordered:
+                    del log[:]
+                    got = hc.get(k)
+                    if [x[0] for x in log] != [where.get(k)] or got != "v-" + k:
+                        fail(op="get after a %s that was the first call once a dead server's dead_timeout had elapsed" % first_op, key=k, servers=nserv,
+                             batch_went_to=repr(where.get(k)), get_went_to=repr(log), returned=repr(got)); break
+                if bad: break
+            if bad: break
+    finally:
+        hmod3.time = real_time
 out(cases=n, failing=bad)
 '''
 _rc = {}
